@@ -62,6 +62,8 @@ class Scheduler:
         self.next_pidfd = 5000
         self.on_crash = []        # callbacks(pid)
         self.quantum = 40         # yield points a process may run while others wait
+        self.observer = None      # callable(process, label) at every yield point
+        self.hot_pids = set()
         self.stall_rate = 0       # percent, at hot points
         self.stall_times = (1e-3, 5e-3, 30e-3)
 
@@ -230,6 +232,11 @@ class Scheduler:
         if threading.current_thread() is not p.thread:
             return              # the harness itself, outside any simulated process
         p.steps += 1
+        if p.pid in self.hot_pids:        # this process just created in-flight state
+            self.hot_pids.discard(p.pid)
+            hot = True
+        if self.observer is not None:
+            self.observer(p, label)
         if p.crashable and self.crashes_left > 0 and self.crash_rate and \
                 self.tape.chance("fault/crash", self.crash_rate):
             self.crash(p, label)
